@@ -110,6 +110,14 @@ func c09OneEP(prop, load string, k int, writeFails bool, capn, bound int, errv s
 						hdrWaiters++
 						vsched.GoNamed("header-"+r.Tag, func() { cs.Header(); hdrWaiters-- })
 						env.PPingPong(2)(r, cs)
+						// an application may call RecvMsg again after it reported the stream's end: the answer stays the same kind
+						if first := r.CErr; first != nil && first != io.EOF {
+							for j := 0; j < 2; j++ {
+								if err := cs.RecvMsg(new(env.Msg)); err == nil || err == io.EOF {
+									vsched.Fail(fam+"|fabricated", "stream %s: RecvMsg reported %v; called again it returned %v (a clean end / a message that nobody sent)", r.Tag, first, err)
+								}
+							}
+						}
 					}
 					r.CDone = true
 				})
